@@ -1085,6 +1085,14 @@ def gen_upfault(seed, tier, focus):
     npre = ch.weighted("config", "npre", [(0, 3), (1, 2), (2, 2), (4, 2), (n, 1)])
     for j in range(min(npre, 2 * n)):
         pre.append([ch.randrange("config", ("presh", j), n), ch.randrange("config", ("presrv", j), nservers)])
+    if focus in ("C06", "C08") and ch.chance("config", "hoard", 0.3):
+        # one server already holds (nearly) every share, e.g. from an upload made while it was the only server:
+        # share numbers then have several holders once new servers receive copies, and happiness (a matching) can
+        # drop when a server is lost although no share number disappears
+        hs = ch.randrange("config", "hoard-srv", nservers)
+        for shn in range(n):
+            if ch.chance("config", ("hoard-sh", shn), 0.85):
+                pre.append([shn, hs])
     if focus == "C07":
         ros = [i for i, kd in enumerate(servers) if kd in ("ro", "full")]
         for j, i in enumerate(ros):
